@@ -18,6 +18,7 @@ with rationals as "num/den" strings (all exactly float64).
 from __future__ import annotations
 
 import itertools
+import os
 import math
 import warnings
 from fractions import Fraction
@@ -74,6 +75,41 @@ RTOL = Fraction(1, 10**5)
 
 
 _BYLABEL_CACHE = {}
+
+
+TRUSTED_EXTRA = [
+    "harness/c12_translate.py: syntax-only translation of the isinstance dispatch of GridFunctionalData's operator methods into "
+    "lean/FDAModel/Generated/Dispatch.lean (vocabulary: lean/FDAModel/Core/PyDispatch.lean, incl. the hand-written class hierarchy "
+    "`Operand.isInstance`)",
+]
+GEN_DISPATCH = os.path.join(common.LEAN_DIR, "FDAModel", "Generated", "Dispatch.lean")
+TRANSLATOR = {"note": None}
+
+
+def translate():
+    """Regenerate Generated/Dispatch.lean from the operator methods of `GridFunctionalData` as they are now.  A source whose
+    shape the translator does not recognise is NOT an alarm: the reference translation kept beside the translator is used
+    and the evidence says that for this run the dispatch is tied to the source by the correspondence only."""
+    import c12_translate
+
+    path = os.path.join(common.REPO, "FDApy", "representation", "functional_data.py")
+    try:
+        src = c12_translate.lean_source(path)
+        TRANSLATOR["note"] = ("translator: operator dispatch of GridFunctionalData regenerated from the source and re-proved equal "
+                              "to the model's guard (C12.dispatch_src_eq_model)")
+    except (ValueError, SyntaxError, IndexError, AttributeError, KeyError, TypeError) as e:
+        TRANSLATOR["note"] = f"translator: shape of the operator methods not recognised, tie rests on the correspondence only ({e})"
+        print("note:", TRANSLATOR["note"])
+        src = open(os.path.join(os.path.dirname(os.path.abspath(__file__)), "c12_dispatch_reference.lean")).read()
+    except OSError as e:
+        raise common.InfraError(f"translator: cannot read {path}: {e}")
+    if not os.path.exists(GEN_DISPATCH) or open(GEN_DISPATCH).read() != src:
+        with open(GEN_DISPATCH, "w") as fh:
+            fh.write(src)
+
+
+def extra_coverage(cases, impls, models):
+    return dict(translator=TRANSLATOR["note"])
 
 
 def _bylabel():
